@@ -347,4 +347,23 @@ def run(F, rep):
     from engines import rule_visit_all
     rule_visit_all(F, rep, 'C13.Y1', lambda g: g.file.endswith('/annotator.cpp'), 15, 'annotator.cpp')
 
+    # ------------------------------------------------------------------ no id is read and then forgotten
+    rep.rule('C13.V1', 'an id that has been read from the model into a local is looked at (tested, recorded) before that local is given another value: a local that is reused for the next id '
+                       'before the first one was recorded makes the collectors of ids in use (annotator index, the printer\'s listIds) miss ids, and those ids are then handed out a second time')
+    from engines import lost_values
+
+    def _is_id_read(e):
+        return any(x.get('k') == 'Call' and x.get('mc') and (x.get('fn') in ('id', 'encapsulationId', 'testValueId', 'resetValueId') or (x.get('fn') or '').endswith('Id')) and not (x.get('fn') or '').startswith(('set', 'remove', 'assign', 'make')) for x in walk(e))
+    n_v1 = 0
+    for g in F.funcs.values():
+        if not g.file.endswith(('/annotator.cpp', '/utilities.cpp', '/printer.cpp')):
+            continue
+        reads_ = [a for a in g.walk() if ((a.get('k') == 'Call' and a.get('opc') == '=') or a.get('k') == 'Var') and a.get('c') and _is_id_read(a['c'][-1])]
+        n_v1 += len(reads_)
+        for a, x in lost_values(g, _is_id_read):
+            rep.fail('C13.V1', '%s|%s' % (g.short.split('::')[-1], render(a)[:50]), g.where(a), '%s: the id read by `%s` can be overwritten at line %s before anything looked at it' % (g.short, render(a)[:60], x.get('l')))
+    rep.ok('C13.V1', 'scan', None, '%d reads of an id into a local in annotator.cpp, utilities.cpp and printer.cpp; none can be overwritten unread' % n_v1)
+    if n_v1 < 20:
+        raise AnalysisBroken('C13.V1: only %d reads of ids into locals found (40+ confirmed)' % n_v1)
+
 
